@@ -86,7 +86,7 @@ struct Coder : Profile {
     std::vector<std::string> required_probes() const override
     {
         return {"rle", "skphuff", "deflate", "none", "backward-seek", "rewrite", "multi-call-write", "nbit", "nbit-signext", "bits", "bitseek",
-                "restart", "empty-read-at-end", "writer-readback", "append-later", "bitmix", "bit-read-in-write-mode", "hnbit", "hnbit-partitioned-read", "hnbit-seek", "partial-refused"};
+                "restart", "empty-read-at-end", "writer-readback", "append-later", "bitmix", "bit-read-in-write-mode", "hnbit", "hnbit-partitioned-read", "hnbit-seek", "partial-refused", "seek-relative"};
     }
 
     Plan generate(Rng &rng, bool thorough, uint64_t) override
@@ -300,9 +300,14 @@ struct Coder : Profile {
                 int64_t tgt = (int64_t)r.below((uint64_t)len + 1);
                 if (tgt < pos)
                     s.ctx.probe("backward-seek");
-                if (Hseek(aid, (int32)tgt, DF_START) == FAIL)
+                // the same target through one of the three origins
+                int   org = (int)r.below(3);
+                int32 rc = org == 0 ? Hseek(aid, (int32)tgt, DF_START) : org == 1 ? Hseek(aid, (int32)(tgt - pos), DF_CURRENT) : Hseek(aid, (int32)(tgt - len), DF_END);
+                if (org)
+                    s.ctx.probe("seek-relative");
+                if (rc == FAIL)
                     s.ctx.fail("seek-refused", strf("seek-refused:%s", cname(m.coder)),
-                               strf("Hseek to %lld inside compressed element %d (%s, %lld bytes) failed (%s)", (long long)tgt, e, cname(m.coder), (long long)len, when));
+                               strf("Hseek to %lld (origin %d) inside compressed element %d (%s, %lld bytes) failed (%s)", (long long)tgt, org, e, cname(m.coder), (long long)len, when));
                 pos = tgt;
             }
             int64_t avail = len - pos;
